@@ -184,6 +184,14 @@ MUTANTS = [
      "                for effect in action.effects:\n                    dummy._add_effect_instance(effect.clone())", "                for effect in action.effects[:1]:\n                    dummy._add_effect_instance(effect.clone())", "_get_stateless"),
     ("C35", "unified_planning/model/contingent/execution_environment.py",
      "            if default_value is None and fluent.type.is_bool_type():\n                default_value = False", "            if default_value is None:\n                default_value = False", "_get_stateless"),
+    ("C04", "unified_planning/engines/plan_validator.py",
+     "                            if v.bool_constant_value():\n                                updates[f] = v\n                        elif (",
+     "                            updates[f] = v\n                        elif (", "_apply_effects"),
+    ("C04", "unified_planning/engines/plan_validator.py",
+     "                            and updates[f].constant_value() == v.constant_value()\n", "", "_apply_effects"),
+    ("C04", "unified_planning/engines/plan_validator.py",
+     "                        else:\n                            raise UPConflictingEffectsException(\"Double effect\")\n                    else:\n                        updates[f] = v\n                        if eff.is_assignment():",
+     "                        else:\n                            updates[f] = v\n                    else:\n                        updates[f] = v\n                        if eff.is_assignment():", "_apply_effects"),
     ("C11", "unified_planning/model/walkers/simplifier.py",
      "            return self.manager.Bool(not l)", "            return self.manager.Bool(l)", "walk_not"),
 ]
